@@ -16,7 +16,7 @@ Line protocol of ssv_c13 (one line in, one line out):
       cs ts            bytes the client / the target will send (hex)
       wk wn            wait read outcome: d(ata) e(of) t(imeout) x(error), byte count
       derr             dial error code (`-` = connected)
-      sched            `auto` (= aL,eL,aR,eR) or a comma list of cL<k> cR<k> eL eR fL fR aL aR uL<U>
+      sched            `auto` (= aL,eL,aR,eR) or a comma list of cL<k> cR<k> eL eR fL fR aL aR uL<U> wL<k> wR<k> (write limit: k bytes, then the write fails if more was due)
   native server|client <proto> <tfo>   the regenerated NativeInitialPayload table
   consts             `<defaultInitialPayloadWaitTimeout ns> <defaultInitialPayloadWaitBufferSize>`
   copy cs=… ts=… sched=…   run the two copy loops alone, answer the final state
@@ -46,6 +46,11 @@ def parseLabel (s : String) (leftTodo rightTodo paylen : Nat) : Option Label :=
   match s.toList with
   | ['a', 'L'] => some (.chunk .left leftTodo)
   | ['a', 'R'] => some (.chunk .right rightTodo)
+  | 'w' :: sd :: rest => do
+    -- a write limit: the loop delivers at most w bytes; if it has more to deliver the write fails (handled in parseSched)
+    let side ← parseSide sd
+    let w ← (String.ofList rest).toNat?
+    pure (.chunk side (min w (match side with | .left => leftTodo | .right => rightTodo)))
   | 'u' :: 'L' :: rest => do
     let u ← (String.ofList rest).toNat?
     pure (.chunk .left (u - paylen))
@@ -59,7 +64,19 @@ def parseLabel (s : String) (leftTodo rightTodo paylen : Nat) : Option Label :=
 
 def parseSched (s : String) (leftTodo rightTodo paylen : Nat) : Option (List Label) :=
   if s == "-" then some []
-  else ((if s == "auto" then "aL,eL,aR,eR" else s).splitOn ",").mapM (fun t => parseLabel t leftTodo rightTodo paylen)
+  else do
+    let toks := (if s == "auto" then "aL,eL,aR,eR" else s).splitOn ","
+    let ls ← toks.mapM (fun t => do
+      let l ← parseLabel t leftTodo rightTodo paylen
+      -- w<side><k> with k below what the loop has to deliver: the chunk of k bytes, then the failing write
+      match t.toList with
+      | 'w' :: sd :: rest =>
+        let side ← parseSide sd
+        let w ← (String.ofList rest).toNat?
+        let todo := match side with | .left => leftTodo | .right => rightTodo
+        pure (if w < todo then [l, Label.fail side] else [l])
+      | _ => pure [l])
+    pure ls.flatten
 
 def parseKind : String → Option ReadKind
   | "d" => some .data
@@ -94,6 +111,9 @@ def parseEnv (fs : List String) : Option Env := do
   -- what the left loop has to read and what DialStream carries depend on the wait decision (closed form `waits`,
   -- proved equal to the interpreted condition in SSV.Proofs.TcpRelay.handleConn_cases)
   let w := hasReq && waits e0 { addr := addr, payload := pay, user := "" }
+  -- trunc=1: an EOF that comes with the wait read ends the client's stream there (what a real connection would do)
+  let cs := if w && wk == .eof && (kv fs "trunc") == some "1" then cs.take (waitBytes e0) else cs
+  let e0 := { e0 with clientStream := cs }
   let consumed := if w then waitBytes e0 else 0
   let paylen := if w then waitBytes e0 else pay.length
   let sched ← parseSched (← kv fs "sched") (cs.length - consumed) ts.length paylen
